@@ -159,6 +159,10 @@ class Forms(Part):
                             la.append(build_line(f["template"], sa, ctx))
                             lb.append(build_line(f["template"], sb, ctx))
                             stem = "%s|%s|%s|ctx=%d.%d.%d" % (f["id"], cls, pname, *ctx)
+                            if cls == "numeric" and secdom.TRAILING[ctx[1]].startswith(" ") and not ctx[2]:
+                                # an unquoted all-digit secret followed by a plain word: one situation per
+                                # form whatever the leading text is
+                                stem = "%s|%s|%s|ctx=digits-then-word%d" % (f["id"], cls, pname, ctx[1])
                             sigs.append((stem, ctx == (0, 0, 0)))
                             reps.append({"form": f["id"], "only": [cls, sl, pi, pname, list(ctx)]})
                         compare_runs(res, la, lb, salt, sigs, reps)
